@@ -833,6 +833,11 @@ func (e *Enc) writeSetOf(instrs []ssa.Instruction, inRegion func(ssa.Instruction
 				srt := arrSort(arrSort(e.reg.sortOf(el)))
 				ws.sorts[name] = srt
 				ws.coarse[name] = srt
+			case *ssa.Send:
+				et := x.Chan.Type().Underlying().(*types.Chan).Elem()
+				nName, lName, lSort := chanGhost(e, et)
+				ws.coarse[nName], ws.coarse[lName] = arrSort(sInt), arrSort(lSort)
+				ws.sorts[nName], ws.sorts[lName] = arrSort(sInt), arrSort(lSort)
 			case *ssa.MakeMap, *ssa.MakeChan, *ssa.MakeClosure:
 				ws.alloc = true
 			case *ssa.MapUpdate:
@@ -951,6 +956,14 @@ func (e *Enc) targetWrites(ws *writeSet, call *ssa.Call, callee *ssa.Function, t
 				ws.coarse["G."+si.goName+"."+f] = arrSort(e.p.cs.Ghosts[si.goName+"."+f])
 			}
 		}
+		return
+	}
+	if t.Chan {
+		bt := typeOf(t.Base)
+		ct := bt.Underlying().(*types.Chan)
+		nName, lName, lSort := chanGhost(e, ct.Elem())
+		ws.coarse[nName], ws.coarse[lName] = arrSort(sInt), arrSort(lSort)
+		ws.sorts[nName], ws.sorts[lName] = arrSort(sInt), arrSort(lSort)
 		return
 	}
 	if t.Elems {
@@ -1114,6 +1127,16 @@ func (e *Enc) evalTarget(c *Ctx, t Target) []modRef {
 		}
 		out = append(out, mk(fieldHeapName(si, k), arrSort(si.fields[k].sort), false))
 		return out
+	}
+	if t.Chan {
+		b := c.eval(t.Base)
+		ct, ok := b.GT.Underlying().(*types.Chan)
+		if !ok {
+			cfail("modifies chan %s: not a channel", t.Text)
+		}
+		nName, lName, lSort := chanGhost(e, ct.Elem())
+		ref := e.def("modchan", b.T)
+		return []modRef{{t: t, heapName: nName, heapSort: arrSort(sInt), ref: ref}, {t: t, heapName: lName, heapSort: arrSort(lSort), ref: ref}}
 	}
 	b := c.eval(t.Base)
 	if t.Elems {
